@@ -218,6 +218,11 @@ def c01_catalogue(quick):
               U(4, path='/other/p4', outside=1), U(5, path='/docs-old/p5', outside=1)]
     np_sub[0]['links'].append(dict(to=5))
     out.append(scenario('noparent-subdir-start', np_sub, dict(noparent=1), N=1))
+    # suffix lists: -R jpg rejects names ending in "jpg", not names ending in one of its letters; -A likewise
+    suf = [U(1, links=[2, 3, 4, 5, 6]), U(2, path='/pic.jpg', rejected=1), U(3, path='/big'), U(4, path='/top'), U(5, path='/log.j'),
+           U(6, path='/dir.jpg/page')]
+    out.append(scenario('reject-suffix-list', suf, dict(tags='--reject jpg'), N=1))
+    out.append(scenario('reject-suffix-list-two', suf, dict(tags='--reject jpg,gif'), N=1))
     sm = sitemap_sites()
     for nm in ('basic', 'missing', 'skipped'):
         out.append(scenario('sitemaps-%s' % nm, sm[nm], dict(sitemaps=1), N=1))
